@@ -54,21 +54,21 @@ def dialect(d: str, q: str) -> Tuple[int, bool]:
     "C06",
     "O2-identity",
     pre=["len(a) <= {N} and len(b) <= {N}", "len(a.strip()) > 0 or len(b.strip()) > 0 or True"],
-    post="_ == ([['h', 'i'], [a, b], ['x'], ['p', 'q', 'r'], [b, a, '']], [['h', 'i'], [a, b], ['x'], ['p', 'q', 'r'], [b, a, '']])",
+    post="_ == ([['h', 'i'], [a, b], ['x'], ['p', 'q', 'r'], [b, a, ''], ['']], [['h', 'i'], [a, b], ['x'], ['p', 'q', 'r'], [b, a, ''], ['']])",
     bound="records: header, [a, b] with symbolic cells of <= N characters (any unicode: quote, delimiter, newline, blanks), a "
-    "short row, a blank record, a long row, a row repeating the symbolic cells; collect() and next() must deliver the non-blank "
+    "short row, a blank record, a long row, a row repeating the symbolic cells, a last record of one empty cell; collect() and next() must deliver the non-blank "
     "records with the same cells, text and order",
     outside="cells longer than N; csv.reader/writer themselves",
     encodes=ENC,
     tiers={"quick": {"timeout": 900, "K": {"N": 1}}, "thorough": {"timeout": 3000, "K": {"N": 2}}},
 )
 def identity(a: str, b: str) -> Tuple[List[List[str]], List[List[str]]]:
-    recs = [["h", "i"], [a, b], ["x"], [], ["p", "q", "r"], [b, a, ""]]
-    p, pr = fresh("$SYM[*][yes()]", [["h", "i"], ["1", "2"], ["x"], [], ["p", "q", "r"], ["2", "1", ""]])
+    recs = [["h", "i"], [a, b], ["x"], [], ["p", "q", "r"], [b, a, ""], [""]]
+    p, pr = fresh("$SYM[*][yes()]", [["h", "i"], ["1", "2"], ["x"], [], ["p", "q", "r"], ["2", "1", ""], [""]])
     StubReader.RECORDS = recs
     p.get_total_lines_and_headers()
     l1 = p.collect()
-    p2, pr2 = fresh("$SYM[*][yes()]", [["h", "i"], ["1", "2"], ["x"], [], ["p", "q", "r"], ["2", "1", ""]])
+    p2, pr2 = fresh("$SYM[*][yes()]", [["h", "i"], ["1", "2"], ["x"], [], ["p", "q", "r"], ["2", "1", ""], [""]])
     StubReader.RECORDS = recs
     p2.get_total_lines_and_headers()
     l2 = [l[:] for l in p2.next()]
